@@ -61,6 +61,7 @@ def projects(draw: Any, with_star: bool = True, with_class_imports: bool = True)
         earlier = [x for x in earlier if x not in initialising]
         names_here: List[Tuple[str, str]] = []
         class_aliases: List[str] = []
+        mod_alias_target: Dict[str, str] = {}
         # imports
         for _ in range(draw(st.integers(0, 4)) if earlier else 0):
             tgt = draw(st.sampled_from(earlier))
@@ -72,12 +73,15 @@ def projects(draw: Any, with_star: bool = True, with_class_imports: bool = True)
             elif form == 'import-as':
                 body.append({'k': 'import', 'text': 'import %s as m%d' % (tgt, i)})
                 names_here.append(('m%d' % i, 'module'))
+                mod_alias_target['m%d' % i] = tgt
                 must.setdefault(m, []).extend('m%d.%s' % (i, x) for x in own_defs.get(tgt, []))
             elif form in ('from-mod', 'from-mod-as') and '.' in tgt:
                 par, leaf = tgt.rsplit('.', 1)
                 alias = 'mm%d' % i if form == 'from-mod-as' else leaf
                 body.append({'k': 'import', 'text': 'from %s import %s%s' % (par, leaf, ' as ' + alias if alias != leaf else '')})
                 names_here.append((alias, 'module'))
+                if alias != leaf:
+                    mod_alias_target[alias] = tgt
                 must.setdefault(m, []).extend('%s.%s' % (alias, x) for x in own_defs.get(tgt, []))
             elif form in ('from-name', 'from-name-as') and public.get(tgt):
                 nm, kind = draw(st.sampled_from(public[tgt]))
@@ -159,13 +163,20 @@ def projects(draw: Any, with_star: bool = True, with_class_imports: bool = True)
                 names_here.append(('v%d' % i, 'var'))
         # alias assignments
         for _ in range(draw(st.integers(0, 2))):
-            cands = [n for n, k in names_here if k in ('class', 'func', 'var')]
+            cands = [n for n, k in names_here if k in ('class', 'func', 'var', 'alias')]
             mods_al = [n for n, k in names_here if k == 'module' and '.' not in n]
             i = nxt()
             if cands and draw(st.booleans()):
                 src = draw(st.sampled_from(cands))
                 body.append({'k': 'alias', 'name': 'al%d' % i, 'expr': src})
                 names_here.append(('al%d' % i, 'alias'))
+            elif mod_alias_target and draw(st.booleans()):
+                # an alias of something reached through a module alias (which may itself be an alias there)
+                ma = draw(st.sampled_from(sorted(mod_alias_target)))
+                if public.get(mod_alias_target[ma]):
+                    nm, _kd = draw(st.sampled_from(public[mod_alias_target[ma]]))
+                    body.append({'k': 'alias', 'name': 'al%d' % i, 'expr': '%s.%s' % (ma, nm)})
+                    names_here.append(('al%d' % i, 'alias'))
         # a package may import its own submodules at the end of its __init__ (everything it defines exists by then, so a submodule
         # that imports names from the package still works), with or without an alias
         if is_pkg(layout, m) and draw(st.booleans()) and not any(b['k'] == 'import' and b['text'].endswith('import *') for b in body):
